@@ -429,6 +429,30 @@ func suiteAppAuth(e *vh.Env) {
 		e.Eval("cached-get-then-backend-deleted", true)
 		e.Count("cached-get-then-backend-deleted")
 	}
+	// a user with more backends than any single datastore operation is usually limited to (500): the longest match
+	// still wins, wherever its backend sorts
+	{
+		const many = 505
+		for k := 0; k < many; k++ {
+			registerBackend(e, aeBackend{fmt.Sprintf("many-%04d", k), "many-agent@svc", "many-user@x", []string{fmt.Sprintf("/m%04d", k)}})
+		}
+		last := aeBackend{fmt.Sprintf("many-%04d", many-1), "many-agent@svc", "many-user@x", nil}
+		pl := goLive(e, last)
+		uc := async(func() (int, http.Header, []byte) {
+			return userCall("many-user@x", false, "many-1", "POST", fmt.Sprintf("/m%04d/x", many-1), nil, []byte("b"))
+		})
+		routed := waitFor(3*time.Second, func() bool { return strings.Contains(fake.snapshot(), fmt.Sprintf("req:%q/many-1", last.id)) })
+		if !routed {
+			r, _ := await(uc, 2*time.Second)
+			e.Fail("C18:enduser-routing", fmt.Sprintf("user many-user@x has %d backends with prefixes /m0000 .. /m%04d; only %s is live; a request for /m%04d/x was not routed to it (status %d)", many, many-1, last.id, many-1, r.Status), -1, nil, r.Status, last.id)
+		} else {
+			await(pl, 35*time.Second)
+			agentCall(last.agent, last.id, "many-1", "/agent/response", "POST", httpResponseBytes("200 OK", nil, []byte("ok")))
+			await(uc, 5*time.Second)
+		}
+		e.Eval("more-than-500-backends", true)
+		e.Count("more-than-500-backends-of-one-user")
+	}
 	// liveness follows the agent's latest poll: the record of an earlier poll is about to leave the 5-minute window,
 	// the agent polls once more (a poll that returns at once because a request is waiting), the old record's time
 	// runs out - the backend is still live, because it polled a moment ago
@@ -559,6 +583,9 @@ func suiteAppRelay(e *vh.Env) {
 			fake.dropMemcache("")
 		}
 		st, hdr, fetched := agentCall(b.agent, b.id, rid, "/agent/request", "GET", nil)
+		if st == 200 && hdr.Get(HeaderUserID) != "ruser@x" {
+			e.Fail("C09:asserted-identity-lost", what+fmt.Sprintf(": the request of signed-in user ruser@x was handed to the agent with %s = %q", HeaderUserID, hdr[HeaderUserID]), idx, nil, hdr.Get(HeaderUserID), "ruser@x")
+		}
 		if st != 200 || !bytes.HasSuffix(fetched, reqBody) || !bytes.Contains(fetched[:minInt(len(fetched), 400)], []byte("POST /p/"+rid+"?q=1 HTTP/1.1")) || hdr.Get(HeaderUserID) != "ruser@x" {
 			e.Fail("C19:fetched-request-altered", what+fmt.Sprintf(": status %d, %d bytes fetched, user %q", st, len(fetched), hdr.Get(HeaderUserID)), idx, nil, len(fetched), nil)
 		}
